@@ -115,13 +115,47 @@ pub fn api_sequence(r: TestReader, fired: &Rc<Cell<bool>>) -> (Vec<String>, Opti
     let s = match d.read_image(&mut buf) { Ok(()) => format!("image:{}", h(&buf)), Err(_) => "image:ERR".into() };
     note(&mut out, s, &mut fired_in);
     if d.is_animated() {
-        for _ in 0..d.num_frames().min(12) + 1 {
+        // frames; after the second one a read_image in the middle of playback (must return the first frame and not move the
+        // position); one read past the end; then a reset and the first frame again
+        let n = d.num_frames().min(12);
+        for i in 0..n + 1 {
+            if i == 2 {
+                let mut buf = vec![0x5au8; sz];
+                let s = match d.read_image(&mut buf) { Ok(()) => format!("image2:{}", h(&buf)), Err(_) => "image2:ERR".into() };
+                note(&mut out, s, &mut fired_in);
+            }
             let mut buf = vec![0xa5u8; sz];
             let s = match d.read_frame(&mut buf) { Ok(dur) => format!("frame:{}:{}", dur, h(&buf)), Err(_) => "frame:ERR".into() };
             note(&mut out, s, &mut fired_in);
         }
+        d.reset_animation();
+        let mut buf = vec![0xa5u8; sz];
+        let s = match d.read_frame(&mut buf) { Ok(dur) => format!("reset_frame:{}:{}", dur, h(&buf)), Err(_) => "reset_frame:ERR".into() };
+        note(&mut out, s, &mut fired_in);
     }
     (out, fired_in)
+}
+
+/// The successful calls of a run (possibly with one failed call in it) must agree with the baseline: the k-th successful
+/// read_frame delivers the k-th frame, read_image always delivers the first frame, the first frame after a reset is frame 1.
+pub fn consistent_with_baseline(res: &[String], base: &[String]) -> Option<String> {
+    let frames = |v: &[String]| -> Vec<String> { v.iter().filter(|s| s.starts_with("frame:") && !s.ends_with(":ERR")).map(|s| s["frame:".len()..].to_string()).collect() };
+    let (fr, fb) = (frames(res), frames(base));
+    for (k, f) in fr.iter().enumerate() {
+        if fb.get(k) != Some(f) { return Some(format!("successful read_frame number {} delivered {:?}, a fresh uninterrupted decoder delivers {:?}", k + 1, f, fb.get(k))); }
+    }
+    let first_image = base.iter().find(|s| s.starts_with("image:") && !s.ends_with(":ERR")).map(|s| s["image:".len()..].to_string());
+    if let Some(fi) = &first_image {
+        for s in res.iter() {
+            for pre in ["image:", "image2:"] {
+                if s.starts_with(pre) && !s.ends_with(":ERR") && &s[pre.len()..] != fi { return Some(format!("{} differs from the first read_image result {}", s, fi)); }
+            }
+        }
+    }
+    if let (Some(rf), Some(f0)) = (res.iter().find(|s| s.starts_with("reset_frame:") && !s.ends_with(":ERR")), fb.first()) {
+        if &rf["reset_frame:".len()..] != f0 { return Some(format!("first frame after reset_animation {:?} differs from the first frame {:?}", rf, f0)); }
+    }
+    None
 }
 
 struct TestWriter { out: Vec<u8>, max_per_write: usize, calls: u64, fail_at: Option<u64> }
@@ -173,6 +207,9 @@ pub fn run(tier: &str, seed: u64, outdir: &str, _extra: &[String]) {
             Err(e) => { violations.push(format!("{}: PANIC on baseline read: {}", it.name, e)); continue; }
         };
         let ncalls = calls0.get();
+        if let Some(why) = consistent_with_baseline(&base, &base) {
+            if violations.len() < 20 { violations.push(format!("{}: uninterrupted run: {}", it.name, why)); }
+        }
         if samples.len() < 6 { samples.push(format!("{} ({} bytes, {} io calls): {:?}", it.name, it.bytes.len(), ncalls, &base[..base.len().min(4)])); }
         // schedules
         for &m in &modes {
@@ -201,6 +238,9 @@ pub fn run(tier: &str, seed: u64, outdir: &str, _extra: &[String]) {
                         if !res[i].ends_with(":ERR") {
                             if violations.len() < 20 { violations.push(format!("{}: fault at io call {} (mode {}) during API call {} but it reported {:?}", it.name, k, mode, i, res[i])); }
                         }
+                    }
+                    if let Some(why) = consistent_with_baseline(&res, &base) {
+                        if violations.len() < 20 { violations.push(format!("{}: after a transient fault at io call {} (mode {}): {}", it.name, k, mode, why)); }
                     }
                 }
                 Err(e) => if violations.len() < 20 { violations.push(format!("{}: PANIC with fault at io call {} (mode {}): {}", it.name, k, mode, e)); },
